@@ -206,8 +206,16 @@ def lexical_obligations(run, lexmod):
             n += 1
             if (rx.fullmatch(s) is not None) != number_spec(s):
                 bad = s
+    # digits of other scripts are not digits of the language (a `\\d` in a str pattern matches every Unicode Nd character)
+    alpha2 = '01.e+x\u0663\uff18\u0967'
+    for L in range(1, 6):
+        for t in itertools.product(alpha2, repeat=L):
+            s = ''.join(t)
+            n += 1
+            if (rx.fullmatch(s) is not None) != es5_lexical.is_numeric_literal(s):
+                bad = s if bad is None or len(s) < len(bad) else bad
     if bad is None:
-        run.discharged('lex.number', 'E3/charclass', 'exhaustive', 0.0, detail='t_NUMBER = NumericLiteral on all %d strings of length <= 5 over %r' % (n, alpha))
+        run.discharged('lex.number', 'E3/charclass', 'exhaustive', 0.0, detail='t_NUMBER = NumericLiteral on all %d strings of length <= 5 over %r and over %r' % (n, alpha, alpha2))
     else:
         run.failed('lex.number', 'E3/charclass', bad, dict(literal=bad), observed='t_NUMBER and the ES5 NumericLiteral grammar disagree on %r' % bad,
                    required='7.8.3', replayed=True)
